@@ -1,5 +1,6 @@
 """C11: check configuration (PROP) and MANIFEST texts (TEXT)."""
 PROP = dict(
+    tables=["C01"],
     n_quick=300, n_thorough=4000, audit=8, audit_maxlen=3000,
     rule="transaction inputs over all outpoint shapes (random txid, index 0, 2^29, 2^30-2, the null outpoint), zero/non-zero blinding nonce, explicit/confidential/null "
          "issuance amounts, inputs that are additionally pegins; the three views (TxIn, PSET input from from_txin, input of from_tx->extract_tx) are compared with the model "
